@@ -616,10 +616,17 @@ class CryptographyEngine(api.CryptographicEngine):
                     raise exceptions.CryptographicFailure(
                         "The public key bytes could not be loaded."
                     )
-            cipher_text = public_key.encrypt(
-                plain_text,
-                padding_method
-            )
+            try:
+                cipher_text = public_key.encrypt(
+                    plain_text,
+                    padding_method
+                )
+            except Exception as e:
+                self.logger.exception(e)
+                raise exceptions.CryptographicFailure(
+                    "Encryption failed: the plain text or the padding "
+                    "settings are not valid for the specified key."
+                )
             return {'cipher_text': cipher_text}
         else:
             raise exceptions.InvalidField(
@@ -990,10 +997,17 @@ class CryptographyEngine(api.CryptographicEngine):
                     raise exceptions.CryptographicFailure(
                         "The private key bytes could not be loaded."
                     )
-            plain_text = private_key.decrypt(
-                cipher_text,
-                padding_method
-            )
+            try:
+                plain_text = private_key.decrypt(
+                    cipher_text,
+                    padding_method
+                )
+            except Exception as e:
+                self.logger.exception(e)
+                raise exceptions.CryptographicFailure(
+                    "Decryption failed: the cipher text or the padding "
+                    "settings are not valid for the specified key."
+                )
             return plain_text
         else:
             raise exceptions.InvalidField(
@@ -1475,24 +1489,25 @@ class CryptographyEngine(api.CryptographicEngine):
             )
 
         if padding == enums.PaddingMethod.PSS:
-            signature = key.sign(
-                data,
-                asymmetric_padding.PSS(
-                    mgf=asymmetric_padding.MGF1(hash_alg()),
-                    salt_length=asymmetric_padding.PSS.MAX_LENGTH
-                ),
-                hash_alg()
+            signature_padding = asymmetric_padding.PSS(
+                mgf=asymmetric_padding.MGF1(hash_alg()),
+                salt_length=asymmetric_padding.PSS.MAX_LENGTH
             )
         elif padding == enums.PaddingMethod.PKCS1v15:
-            signature = key.sign(
-                data,
-                padding_method(),
-                hash_alg()
-            )
+            signature_padding = padding_method()
         else:
             raise exceptions.InvalidField(
                 "Padding method '{0}' is not a supported signature "
                 "padding method.".format(padding)
+            )
+
+        try:
+            signature = key.sign(data, signature_padding, hash_alg())
+        except Exception as e:
+            self.logger.exception(e)
+            raise exceptions.CryptographicFailure(
+                "Signing failed: the hashing algorithm or the padding "
+                "settings are not valid for the specified key."
             )
         return signature
 
